@@ -916,7 +916,7 @@ fn main() {
         ctx.finish(Coverage { evaluations: actions.len() as u64, ..Default::default() });
     }
 
-    let depth = ctx.pick(4, 6);
+    let depth = ctx.pick(3, 5);
     let trees: Vec<&str> = ctx.pick(vec!["TA", "TB"], vec!["TA", "TB", "T0"]);
     let actions = alphabet(&trees);
     let tally = Tally::default();
